@@ -545,6 +545,22 @@ pub fn gen_tie(seed: u64, tag: &str, thorough: bool) {
         let i = 6 * k + 1 + k % 5;
         println!("{}", pipe_case(&mut rng, &src, i, tag));
     }
+    // the header's option entries reach the engine whatever their order: LSP voices with the log-gain flag written BEFORE the
+    // stage (chosen here, not drawn: the writer's shuffle once stopped producing this order when its random stream shifted, and
+    // the seeded change C13h — a flag that is only honoured once the stage is known — slipped through the recent-seed sweep)
+    if tag == "C13" || tag == "C01" || tag == "C04" {
+        for k in 0..3usize {
+            let cfg = VoiceCfg { nstream: 2 + k % 2, stage: 1 + k % 3, nstate: rng.range(1, 4), max_leaves: 4 };
+            let mut spec = VoiceSpec::random(&mut rng, &cfg, &src.pool);
+            spec.log_gain = true;
+            spec.streams[0].options = vec!["LN_GAIN=1".to_string(), format!("GAMMA={}", cfg.stage), format!("ALPHA={}", spec.alpha)];
+            let v = load_spec(&spec, &format!("tie_lng_{}_{}", std::process::id(), k));
+            let Ok(mut e) = engine_of(vec![Arc::new(v)]) else { continue };
+            e.condition.set_fperiod(rng.range(4, 24));
+            let lines = src.labels(&mut rng, 2, false);
+            println!("{}", pipe_line(tag, &e, 0.0, &lines, "gen-lsp"));
+        }
+    }
 }
 
 /// like `gen_tie`, from the voice files alone
